@@ -22,6 +22,11 @@ KNOWN = ("Also note these documented, already-known weaknesses of the code base 
          "The airgapped unit tests use a fixed shared directory /tmp/airgapped_test: if `go test ./airgapped/...` fails with "
          "'resource temporarily unavailable', another job holds the lock - just retry a little later (up to a few minutes).")
 
+HINT = ""
+if os.environ.get("SEED_HINT"):
+    HINT = "\n\nFor this round prefer one of these kinds of defect, which earlier rounds used least: " + os.environ["SEED_HINT"]
+
+
 def main():
     suf = sys.argv[1]
     ids = sys.argv[2:] or ["C%02d" % n for n in range(1, 21)]
@@ -50,7 +55,7 @@ def main():
             "clause of the property. Read the property text carefully, list its clauses and quantifiers ('every', 'any order', "
             "'whatever', 'at any point', 'exactly', 'only'), and pick one that these do not touch; also consider code paths that are "
             "rarely exercised (CLI export helpers, API read endpoints, restart paths, unusual-but-valid configurations such as large n, "
-            "t=n, t=2, empty lists, long names, non-ASCII names):\n%s\n%s" % (ident, ident, ident, ident, k, ident, avoid, KNOWN))
+            "t=n, t=2, empty lists, long names, non-ASCII names):\n%s\n%s%s" % (ident, ident, ident, ident, k, ident, avoid, KNOWN, HINT))
         subprocess.run(["git", "-C", "/repo", "worktree", "add", "--detach", "/tmp/mut/" + ident, "HEAD", "-q"], check=False)
         print("prepared", ident)
 
